@@ -31,8 +31,13 @@ fn n_grid_c() -> u64 {
     (NEG.len() * 2 * 2 + BAD_IDS.len() * 3 * 2 * 2 + 4) as u64
 }
 
+// mixed batches: dead IDs in front of live ones, duplicates, same-deadline modification
+fn n_grid_d() -> u64 {
+    10
+}
+
 fn grid(_p: &EpParams) -> u64 {
-    n_grid_a() + n_grid_b() + n_grid_c()
+    n_grid_a() + n_grid_b() + n_grid_c() + n_grid_d()
 }
 
 fn reps(p: &EpParams) -> u64 {
@@ -71,8 +76,10 @@ async fn episode(p: &EpParams) -> EpReport {
         grid_a(p, case).await
     } else if case < n_grid_a() + n_grid_b() {
         grid_b(p, case - n_grid_a()).await
-    } else {
+    } else if case < n_grid_a() + n_grid_b() + n_grid_c() {
         grid_c(p, case - n_grid_a() - n_grid_b()).await
+    } else {
+        grid_d(p, case - n_grid_a() - n_grid_b() - n_grid_c()).await
     }
 }
 
@@ -413,6 +420,147 @@ async fn grid_c(p: &EpParams, case: u64) -> EpReport {
     rep.history = su.seq.history(80);
     su.w.shutdown();
     rep
+}
+
+/// Batches in which dead (unknown / stale) IDs precede live ones, duplicate IDs, and a
+/// modification that sets exactly the deadline the lease already has. Every live ID of an
+/// accepted request must be treated as if it had been sent alone.
+async fn grid_d(p: &EpParams, case: u64) -> EpReport {
+    let mut rep = EpReport::default();
+    let stream = matches!(case, 2 | 3 | 8);
+    let mut su = setup(p, stream).await;
+    if su.ids.len() != 2 {
+        rep.inconclusive("setup did not hand out two messages");
+        return rep;
+    }
+    let s = su.s.clone();
+    let (a1, a2) = (su.ids[0].clone(), su.ids[1].clone());
+    let unknown = "424242".to_string();
+    su.seq.advance_to(su.h + 2 * SEC).await;
+    let label;
+    match case {
+        0 => {
+            label = "unary [unknown, a1, a2] +30";
+            su.seq.modify(&s, &[unknown.clone(), a1.clone(), a2.clone()], 30).await;
+        }
+        1 => {
+            // make a2 stale first: nack it and lease the message again under a new ID
+            label = "unary [stale, a1] nack";
+            su.seq.modify(&s, &[a2.clone()], 0).await;
+            su.seq.pull(&s, 10, true).await;
+            su.seq.modify(&s, &[a2.clone(), a1.clone()], 0).await;
+            let got = su.seq.pull(&s, 10, true).await; // a1's message must be available now
+            if got.is_empty() {
+                rep.viol("C05", "C05:live-id-after-dead-id-ignored", "ModifyAckDeadline([stale, live], 0): the live delivery was not nacked");
+            }
+        }
+        2 => {
+            label = "stream [unknown, a1] secs [30, 0]";
+            do_modify(&mut su, "stream", &[unknown.clone(), a1.clone()], &[30, 0]).await;
+            su.seq.check_streams_drained(&mut rep);
+            if su.seq.m.subs[&s].delivered.get("m1").copied().unwrap_or(0) < 2 {
+                rep.viol("C05", "C05:live-id-after-dead-id-ignored", "StreamingPull modify [unknown, live] with seconds [30, 0]: the live delivery was not nacked");
+            }
+        }
+        3 => {
+            label = "stream [a1, a1] secs [20, 120]";
+            do_modify(&mut su, "stream", &[a1.clone(), a1.clone()], &[20, 120]).await;
+        }
+        4 => {
+            label = "unary [a1, a1] +30 (duplicate)";
+            su.seq.modify(&s, &[a1.clone(), a1.clone()], 30).await;
+        }
+        5 => {
+            // the new deadline equals the current one: modify(10) in the very instant of the hand-out
+            label = "unary a1 +10 at the hand-out instant (same deadline)";
+            let mut su2 = setup_same_instant(p).await;
+            std::mem::swap(&mut su, &mut su2);
+            su2.w.shutdown();
+        }
+        6 => {
+            label = "ack [stale, a1]";
+            su.seq.modify(&s, &[a2.clone()], 0).await;
+            su.seq.pull(&s, 10, true).await;
+            su.seq.ack(&s, &[a2.clone(), a1.clone()]).await;
+        }
+        7 => {
+            label = "ack [unknown, a1, a2]";
+            su.seq.ack(&s, &[unknown.clone(), a1.clone(), a2.clone()]).await;
+        }
+        8 => {
+            label = "stream ack [unknown, a1] + modify [unknown, a2] +30";
+            let now = su.seq.now();
+            su.seq.streams[&s].send(&[unknown.clone(), a1.clone()], &[unknown.clone(), a2.clone()], &[30, 30]);
+            su.w.settle().await;
+            su.seq.m.acked(&s, &[a1.clone()], now);
+            su.seq.m.modified(&s, &[a2.clone()], 30, now);
+            su.seq.after_step("Modify").await;
+        }
+        _ => {
+            label = "unary [a1, unknown, a2] +3 (shorten)";
+            su.seq.modify(&s, &[a1.clone(), unknown.clone(), a2.clone()], 3).await;
+        }
+    }
+    // Walk across every deadline the model knows, probing on both sides.
+    let s = su.s.clone();
+    for _ in 0..6 {
+        let now = su.seq.now();
+        let next = su.seq.m.subs.get(&s).map(|x| x.leases.values().filter(|l| l.hi >= now).map(|l| (l.lo, l.hi)).min()).unwrap_or(None);
+        let Some((lo, hi)) = next else { break };
+        if lo > now + MS {
+            su.seq.advance_to(lo - MS).await;
+            if stream {
+                su.seq.check_streams_drained(&mut rep);
+            } else {
+                su.seq.pull(&s, 10, true).await;
+            }
+        }
+        su.seq.advance_to(hi + MS).await;
+        if stream {
+            su.seq.check_streams_drained(&mut rep);
+        } else {
+            let got = su.seq.pull(&s, 10, true).await;
+            // acknowledge what came back so that the walk terminates
+            let ids: Vec<String> = got.iter().map(|d| d.ack_id.clone()).collect();
+            if !ids.is_empty() {
+                su.seq.ack(&s, &ids).await;
+            }
+        }
+        if stream {
+            // ack what the stream got again
+            let ids: Vec<String> = su.seq.m.subs[&s].leases.keys().cloned().collect();
+            if su.seq.m.subs[&s].delivered.values().all(|n| *n >= 2) && !ids.is_empty() {
+                su.seq.ack(&s, &ids).await;
+            }
+        }
+    }
+    su.seq.check_stats("Modify").await;
+    su.seq.flush(&mut rep);
+    rep.nontrivial = true;
+    rep.inc("mixed_batches_checked");
+    rep.key = format!("D {}", label);
+    rep.history = su.seq.history(80);
+    su.w.shutdown();
+    rep
+}
+
+/// Hand-out and ModifyAckDeadline(10) in the same virtual instant on a 10 s subscription.
+async fn setup_same_instant(p: &EpParams) -> Setup {
+    let mut rng = Rng::new(p.ep_seed ^ 0x55);
+    let w = World::new(transport_of(p), true, Some(rng.below(100))).await;
+    let mut seq = Seq::new(&w);
+    let (t, s) = (topic_name(1, 1), sub_name(1, 1));
+    seq.create_topic(&t).await;
+    seq.create_sub(&s, &t, 10).await;
+    seq.publish(&t, 2).await;
+    seq.settle_each_step = false;
+    let ids: Vec<String> = seq.pull(&s, 10, true).await.iter().map(|d| d.ack_id.clone()).collect();
+    if !ids.is_empty() {
+        seq.modify(&s, &[ids[0].clone()], 10).await;
+    }
+    seq.settle_each_step = true;
+    let h = seq.m.subs[&s].leases.values().map(|l| l.handed).min().unwrap_or(0);
+    Setup { w, seq, t, s, ids, h, a: 10 * SEC }
 }
 
 async fn random_episode(p: &EpParams) -> EpReport {
